@@ -66,18 +66,24 @@ static void op(long c, long, vh::Tok& t)
     put_u64(Unicode::length((char)(unsigned char)parse_u64(a)));
   } else if(!strcmp(o, "u8dec")) {
     size_t n; unsigned char* d = exact(a, n);
-    put_u64(Unicode::fromString((const char*)d, n)); free(d);
+    put_u64(Unicode::fromString((const char*)d, n)); putchar(' ');
+    String s((const char*)d, n); free(d);
+    put_u64(Unicode::fromString(s));                 // the String overload (Unicode.hpp:120) on the same bytes
   } else if(!strcmp(o, "u8valid")) {
     size_t n; unsigned char* d = exact(a, n);
-    put_u64(Unicode::isValid((const char*)d, n) ? 1 : 0); free(d);
+    put_u64(Unicode::isValid((const char*)d, n) ? 1 : 0); putchar(' ');
+    String s((const char*)d, n); free(d);
+    put_u64(Unicode::isValid(s) ? 1 : 0);            // the String overload (Unicode.hpp:154)
   } else if(!strcmp(o, "u8rt")) {
     String s = Unicode::toString((uint32)parse_u64(a));
     // exact-size copy of the encoder's output for the two readers
     size_t n = s.length(); char* d = (char*)malloc(n); memcpy(d, (const char*)s, n);
     put_str(s); putchar(' ');
     put_u64(Unicode::fromString(d, n)); putchar(' ');
-    put_u64(Unicode::isValid(d, n) ? 1 : 0);
+    put_u64(Unicode::isValid(d, n) ? 1 : 0); putchar(' ');
     free(d);
+    put_u64(Unicode::fromString(s)); putchar(' ');   // the String overloads on the encoder's own result
+    put_u64(Unicode::isValid(s) ? 1 : 0);
   } else if(!strcmp(o, "hex")) {
     size_t n; unsigned char* d = exact(a, n);
     put_str(String::fromHex(d, n)); free(d);
